@@ -23,6 +23,9 @@
 #include <time.h>
 
 #include "numeric.h"
+#ifdef LIBSCIENTIFIC_VERIF
+#include "memwrapper.h"
+#endif
 #include "vector.h"
 #include "matrix.h"
 #include "interpolate.h"
@@ -56,11 +59,17 @@ uint32_t XOR128_SEED = 0;
 
 void srand_(uint32_t seed)
 {
+  #ifdef LIBSCIENTIFIC_VERIF
+  if(verif_rng_yield != NULL) verif_rng_yield(0);
+  #endif
   XOR128_SEED = generate_seed(seed);
 }
 
 double rand_()
 {
+  #ifdef LIBSCIENTIFIC_VERIF
+  if(verif_rng_yield != NULL) verif_rng_yield(1);
+  #endif
   struct xorshift128_state state;
   if(XOR128_SEED  == 0)
     XOR128_SEED = time(NULL);
@@ -74,6 +83,9 @@ double rand_()
 
 int randInt(int low, int high)
 {
+  #ifdef LIBSCIENTIFIC_VERIF
+  if(verif_rng_yield != NULL) verif_rng_yield(2);
+  #endif
   struct xorshift128_state state;
   if(XOR128_SEED  == 0)
     XOR128_SEED = time(NULL);
@@ -87,6 +99,9 @@ int randInt(int low, int high)
 
 double randDouble(double low, double high)
 {
+  #ifdef LIBSCIENTIFIC_VERIF
+  if(verif_rng_yield != NULL) verif_rng_yield(3);
+  #endif
   /*
    * xor128() cannot return 4294967296
    */
